@@ -171,7 +171,9 @@ MalClasses == {"empty", "short1", "short2", "nob64", "b64rand", "b64trunc", "ove
                \* several seconds while an honest node dials, then goes away
                "stallSilent", "stallPartial", "stallAfterHello",
                \* a peer that COMPLETES a well-formed credential-fetch handshake and resets its socket right after its last flight
-               "resetAfterHandshake"}
+               "resetAfterHandshake",
+               \* a well-signed fetch request whose nonce is a well-formed activation token the server does not hold / is garbage
+               "unknownToken", "garbageToken"}
 MalPrefixes == {"fetch", "auth", "pref"}
 
 (***************************************************************************)
